@@ -58,8 +58,8 @@ func init() {
 		"tabula.Extractor.Chunks", "tabula.Extractor.PageRange", "tabula.Extractor.Fragments"}
 	props["C02"] = propInfo{
 		level:     "fault_enumeration",
-		quickRuns: 5040, chunk: 7, thoroughS: 900, thoroughMax: 50000000,
-		rule: "run i = (format i mod 7, document (i/7) mod D, block (i/7)/D) with D = 2 documents per format (quick) or 40 (thorough), all from the harness's independent generators. Blocks 0..n-1 enumerate, 48 at a time and in a fixed order, EVERY single fault of the catalogue for that document: PDF - every field of every object incl. stream dictionaries, xref-stream dictionary and trailer replaced by each bad value (0, -1, 2^31, 2^63-1, a 400-digit integer, ...), every reference retargeted (itself, the catalog, free object 0, a missing object, a direct integer, dropped), arrays emptied / shortened / doubled, stream bodies corrupted five ways, /Prev made cyclic five ways per revision (all regenerated through the writer so that offsets stay valid), plus every numeric token / delimiter / keyword of the file text mutated, truncation at every byte (images <= 4 KiB) or token and sector boundary, every 512-byte sector zeroed / dropped / duplicated / swapped, every structural byte replaced by each of 13 structural characters; ZIP formats - every member dropped, duplicated, emptied, renamed, made a directory, CRC / compressed data / method / names / sizes / offset damaged, end-of-central-directory fields damaged, every XML part truncated at every tag boundary, closing tags dropped, opening tags doubled, every numeric / cell-reference / path attribute and numeric text replaced by bad values; HTML - the same markup faults plus nesting to depth 5000. Blocks >= n alternate seeded double faults (24 pairs, half of them neighbours in the enumeration, i.e. the same object / member / region; 15% under a wrong file extension) and in-flight read errors on the io.Reader / io.ReaderAt / io.ReadSeeker entry points. Every fault set is run through the format's entry points (quick: 3-4 cheapest for singles, all for doubles; thorough: all ~30). Non-trivial = at least one evaluation; distinct = distinct (format, document, kind, block).",
+		quickRuns: 5040, chunk: 8, thoroughS: 900, thoroughMax: 50000000,
+		rule: "run i = (format slot i mod 8 - PDF holds two of the eight slots -, document j mod D, block j/D, j counting the format's runs) with D = 2 documents per format (quick) or 40 (thorough), all from the harness's independent generators. Blocks 0..n-1 enumerate, 48 at a time and in a fixed order, EVERY single fault of the catalogue for that document: PDF - every field of every object incl. stream dictionaries, xref-stream dictionary and trailer replaced by each bad value (0, -1, 2^31, 2^63-1, a 400-digit integer, ...), every reference retargeted (itself, the catalog, free object 0, a missing object, a direct integer, dropped), arrays emptied / shortened / doubled, stream bodies corrupted five ways, /Prev made cyclic five ways per revision (all regenerated through the writer so that offsets stay valid), plus every numeric token / delimiter / keyword of the file text mutated, truncation at every byte (images <= 4 KiB) or token and sector boundary, every 512-byte sector zeroed / dropped / duplicated / swapped, every structural byte replaced by each of 13 structural characters; ZIP formats - every member dropped, duplicated, emptied, renamed, made a directory, CRC / compressed data / method / names / sizes / offset damaged, end-of-central-directory fields damaged, every XML part truncated at every tag boundary, closing tags dropped, opening tags doubled, every numeric / cell-reference / path attribute and numeric text replaced by bad values; HTML - the same markup faults plus nesting to depth 5000. For PDF the next m blocks enumerate EVERY structured fault pair of the document: each reference that sits in a collection with 2-4 references (/Kids, an /XObject or /Font dictionary, a page's entries) pointed at its container or at the object a sibling entry names (which makes form XObjects, page tree nodes and resource chains cyclic), combined with each of up to ~20 ways of making another sibling's object fail (content stream replaced by an unclosed string / stray delimiter / open dictionary / open array / cut in the middle, stream body corrupted or halved, each of its first six dictionary entries replaced by a bad value or dropped) - the error path then runs inside the recursion that a depth or visited guard has to stop. Blocks beyond alternate seeded double faults (24 pairs, half of them neighbours in the enumeration, i.e. the same object / member / region; 15% under a wrong file extension) and in-flight read errors on the io.Reader / io.ReaderAt / io.ReadSeeker entry points. Every fault set is run through the format's entry points (quick: 3-4 cheapest for singles, all for doubles; thorough: all ~30). Non-trivial = at least one evaluation; distinct = distinct (format, document, kind, block).",
 		assume: []string{
 			"bounds: step budget 300 x (steps of the same operation on the undamaged image) x (growth of the image)^2 + 2*10^8; single allocation <= 256 MiB; goroutine stack <= 256 MiB; wall-clock backstop 180 s per run for loops outside instrumented code",
 			"nothing is said about what a damaged document yields, only that the call returns",
